@@ -152,7 +152,7 @@ theorem computeUpdate_nodes_none {u : Update} {b t o : Nat} {c : AMap Felt Nat}
 theorem computeUpdate_nodes_some {cur : Reader} {u : Update} {b t o : Nat} {c : AMap Felt Nat}
     {chain : Reader} {aff : PreConf} (hc : computeUpdate (some cur) u b t o c = .changed chain aff) :
     if cur.length == 0 then chain.nodes = [aff]
-    else if b == cur.tip + 1 then chain.nodes = aff :: cur.nodes
+    else if b == succ64 cur.tip then chain.nodes = aff :: cur.nodes
     else chain.nodes = aff :: cur.nodes.drop (cur.tip - b + 1) := by
   unfold computeUpdate at hc
   simp only at hc
@@ -166,7 +166,7 @@ theorem computeUpdate_nodes_some {cur : Reader} {u : Update} {b t o : Nat} {c : 
       · cases hc
       · split at hc
         · cases hc
-        · by_cases hext : (b == cur.tip + 1) = true
+        · by_cases hext : (b == succ64 cur.tip) = true
           · simp only [hext, ↓reduceIte] at hc ⊢
             cases u with
             | block ident verOk txs =>
@@ -282,7 +282,7 @@ theorem happlyUpdate_refines {s : HStore} (hs : HOk s) (u : Update) (b t o : Nat
       · simp only [hl0, ↓reduceIte] at hnodes ⊢
         exact alloc next none chain (PtrOk.none _) (by simpa [hfull_nil] using hnodes)
       · simp only [hl0, Bool.false_eq_true, ↓reduceIte] at hnodes ⊢
-        by_cases hext : (b == Reader.tip { nodes := hfull s.heap cur.head, length := cur.length } + 1) = true
+        by_cases hext : (b == succ64 (Reader.tip { nodes := hfull s.heap cur.head, length := cur.length })) = true
         · simp only [hext, ↓reduceIte] at hnodes ⊢
           exact alloc next cur.head chain (hs.head cur hin) hnodes
         · simp only [hext, Bool.false_eq_true, ↓reduceIte] at hnodes ⊢
